@@ -189,7 +189,15 @@ def _corpus_one(item):
             if obs(rec) != f:
                 probs.append("%s: shot %d of a %d-shot run on one AST differs from a fresh parse-analyse-run (same default draws) in %s" % (variant, i, _N, diff_of(obs(rec), f)))
                 break
-    return name, src, probs, 1 + 2 * _N
+    nleak = 0
+    if "class " in src:
+        # objects of one shot must be gone when the next one starts: LeakSanitizer after the last shot, all evaluators destroyed
+        r = vdrv.run_job({"id": "k", "kind": "run", "opts": {"shots": _N, "gc": "own", "warn": 0, "leakcheck": 1}, "blobs": {"src": src}}, variant="asan+leak")
+        nleak = _N
+        if r.crash == "sanitizer:detected":
+            lines = [ln.strip() for ln in r["fd2"].split("\n") if "leak of" in ln or "SUMMARY" in ln]
+            probs.append("leak: memory allocated by the shots of a %d-shot run is still allocated (and unreachable) after the last shot - objects of earlier shots carried over: %s" % (_N, "; ".join(lines[:3])))
+    return name, src, probs, 1 + 2 * _N + nleak
 
 
 def main(tier):
